@@ -270,6 +270,17 @@ def con2(tier):
                     yield _conn_spec(sk, srcs, tgts, excl=[('S2', 'T2')])
                 # exclusion between two connectors that are conditional on DIFFERENT choices / nesting levels
                 yield _conn_spec(sk, srcs, tgts, excl=[('S2', 'T1')])
+    # TWO exclusion edges; the first-listed (and, reversed, the last-listed) one involves a conditional connector
+    for ds in itertools.product(['1', '0..1', '0..*'], repeat=2):
+        for dt in itertools.product(['0..1', '0..*'], repeat=2):
+            for cond_src in (0, 1):
+                srcs = [(ds[0], False, 'o1' if cond_src == 0 else 'a'), (ds[1], False, 'o1' if cond_src == 1 else 'a')]
+                tgts = [(dt[0], False, 'a'), (dt[1], False, 'a')]
+                c = f'S{cond_src+1}'
+                o = f'S{2-cond_src}'
+                yield _conn_spec('one', srcs, tgts, excl=[(c, 'T1'), (o, 'T2')])
+                yield _conn_spec('one', srcs, tgts, excl=[(o, 'T2'), (c, 'T1')])
+                yield _conn_spec('one', tgts, srcs, excl=[('S1', f'T{cond_src+1}'), ('S2', f'T{2-cond_src}')])
     # grouping on both sides
     for ds in itertools.product(D, repeat=2):
         for dt in itertools.product(D, repeat=2):
@@ -389,6 +400,24 @@ def con3(tier):
         for src_deg, tgt_deg in (('1', '0..1'), ('0..1', '0..1'), ('1', '0..*')):
             for cond in (False, True):
                 yield spec_for(n_choices, tgt_deg, src_deg, cond)
+    # connection choices with exactly ONE valid connection set (no design variable), 2-3 of them active together, optionally
+    # mixed with one that has a variable (every position)
+    for n_choices in (2, 3):
+        for with_var in [None] + list(range(n_choices)):
+            sp = skel('one')
+            sp['conn'] = {}
+            sp['cch'] = []
+            for k in range(n_choices):
+                sp['conn'][f'S{k}'] = dict(deg='1', rep=False, anchor='a')
+                if k == with_var:
+                    tn = [f'T{k}0', f'T{k}1']
+                    for t in tn:
+                        sp['conn'][t] = dict(deg='0..1', rep=False, anchor='a')
+                else:
+                    tn = [f'T{k}0']
+                    sp['conn'][tn[0]] = dict(deg='1', rep=False, anchor=('o1' if k == 1 else 'a'))
+                sp['cch'].append([f'K{k}', [f'S{k}'], tn, []])
+            yield sp
     # one of the connection choices (every position) has NO valid connection set when option o1 (resp. p1) is taken: a single
     # source with exactly one connection facing two targets that each demand one, the second target existing under the option
     for sk in ('one', 'indep'):
